@@ -440,7 +440,7 @@ func (g *GeneratorBase) Clean() error {
 		return err
 	}
 	for _, file := range matches {
-		if file == genfile {
+		if filepath.Base(file) == genfile {
 			continue
 		}
 		isGen, err := g.isGeneratedFile(file)
